@@ -138,6 +138,17 @@ def run(prog: Program, roots=None, prop="C08") -> Results:
         fallback_handlers(prog, res, closure)
         from sa.rules.c05 import callee_head_acceptance
         callee_head_acceptance(prog, res, "R-C08-5", res.rules["R-C08-5"])
+        # (c) missing outer scope layer: the selector-derived index is dominated by the depth guard (shared with R-C09-2)
+        from sa.rules import c09 as _c09
+        _sub = _c09.run(prog)
+        _st = _sub.rules.get("R-C09-2")
+        if _st:
+            res.rules["R-C08-5"].instances += _st.instances
+            res.rules["R-C08-5"].obligations += _st.obligations
+            res.rules["R-C08-5"].discharged += _st.discharged
+        for _f in _sub.findings:
+            if _f.rule == "R-C09-2":
+                res.add("R-C08-5", _f.key, _f.where, _f.message)
         from sa.defassign import maybe_unbound
         r7 = res.rule("R-C08-7", "no implicit UnboundLocalError in the edit closure: every read of a local is preceded by an assignment "
                       "on every path (only KeyError/ValueError may leave a rejected edit)", floor=40)
